@@ -114,6 +114,19 @@ def cases(draw, max_files=8):
         case["l1"] = "hardlink"
         if draw(st.booleans()):
             case["l2"] = "hardlink"
+    # further checkouts of the same (unchanged) object at the workspace path and at a second one, each with its own
+    # configured link type, relinking or plain: the object acquires extra hard links / symlinks elsewhere before
+    # a path is relinked. A single-file target always gets such a history (it is cheap), a tree often.
+    if shape == "file":
+        n = draw(st.sampled_from([3, 4, 5, 6, 2, 4]))
+    else:
+        n = draw(st.sampled_from([0, 3, 0, 4, 2, 5]))
+    case["hist"] = [
+        {"at": draw(st.sampled_from([1, 0, 0, 1])),
+         "type": draw(st.sampled_from(TYPE_NAMES)),
+         "relink": draw(st.sampled_from([True, False, True]))}
+        for _ in range(n)
+    ]
     return case
 
 
@@ -274,15 +287,15 @@ def run_case(case, ctx):
                     viols.append(Viol("setup-unprotected", f"objects {bad[:2]} not 0o444 after transfer into a LocalHashFileDB"))
                     return Result(viols, False, classes)
 
-            ws = os.path.join(d, "ws")
-            rel_ws = "ws"
+            ws = ws1 = os.path.join(d, "ws")
 
             def cpath(oid):
                 return os.path.join(cache_dir, oid[:2], oid[2:])
 
             # ---- one observed call ---------------------------------------------------------
-            def call(label, odb, target, **kw):
+            def call(label, odb, target, at=None, **kw):
                 """Run checkout; apply the per-call clauses (exceptions, cache snapshot, link record)."""
+                ws, rel_ws = (at, os.path.basename(at)) if at else (ws1, "ws")
                 before = snap_cache(cache_dir)
                 try:
                     ret = checkout(ws, fs, target, odb, state=state, **kw)
@@ -307,8 +320,8 @@ def run_case(case, ctx):
                                               f"{label} checkout saved link record {got}, workspace is {want}"))
                 return ret
 
-            def check_equal(label):
-                got = files_of(snap_ws(ws))
+            def check_equal(label, at=None):
+                got = files_of(snap_ws(at or ws))
                 missing = sorted(set(flat) - set(got))
                 extra = sorted(set(got) - set(flat))
                 if missing:
@@ -321,8 +334,8 @@ def run_case(case, ctx):
 
             cache_touched = [False]
 
-            def check_types(label, want):
-                snap = snap_ws(ws)
+            def check_types(label, want, at=None):
+                snap = snap_ws(at or ws)
                 seen = set()
                 for rel in sorted(flat):
                     r = snap.get(rel)
@@ -555,6 +568,47 @@ def run_case(case, ctx):
                     if r not in (None, "raised"):
                         viols.append(Viol("repeat-not-noop", f"plain checkout after relinking returned {r!r}, expected None"))
                     _same_snapshot(viols, s0, snap_ws(ws), "repeat")
+
+            # ---- phase 4: a history of further checkouts of the same object at two paths ----
+            # every step: forced checkout of the unchanged target at ws or ws2 with a drawn configured type,
+            # relinking or plain. The same object thereby gains and loses hard links / symlinks elsewhere
+            # before a path is relinked (a single-file object has no other way to get nlink > 1).
+            ws2 = os.path.join(d, "ws2")
+            for k, stp in enumerate(case.get("hist", []) if not viols else []):
+                at = ws2 if stp["at"] else ws1
+                other = ws1 if stp["at"] else ws2
+                want = EFF[stp["type"]]
+                odb_h = odb_for(stp["type"])
+                tgt_h = oload(odb_h, obj.hash_info)
+                label = "hist-relink" if stp["relink"] else "hist-plain"
+                pre = snap_ws(at)
+                pre_types = {observed_type(pre[rel], cpath(manifest[rel])) for rel in flat if rel in pre}
+                if not pre:
+                    pre_types = {"absent"}
+                multilinked = any(os.lstat(cpath(o)).st_nlink > 1 for o in oids)
+                if k == 0:
+                    classes.append("hist")
+                if stp["relink"]:
+                    for t in sorted(pre_types):
+                        classes.append(f"hist:{t}->{want}")
+                    if "symlink" in pre_types and multilinked:
+                        classes.append("hist:symlink-to-multilinked-object")
+                        if want == "hardlink":
+                            classes.append(f"hist:symlink-to-multilinked-object->hardlink:{case['shape']}")
+                    if "copy" in pre_types and multilinked:
+                        classes.append("hist:copy-of-multilinked-object")
+                o_before = files_of(snap_ws(other))
+                if call(label, odb_h, tgt_h, at=at, force=True, relink=stp["relink"]) == "raised":
+                    break
+                check_equal(label, at=at)
+                if stp["relink"]:
+                    check_types(label, want, at=at)
+                if files_of(snap_ws(other)) != o_before:
+                    viols.append(Viol(f"other-path-changed:{label}",
+                                      f"{label} checkout at {os.path.basename(at)!r} changed files/bytes below "
+                                      f"{os.path.basename(other)!r}, where the same object is checked out too"))
+                if viols:
+                    break
         finally:
             if state is not None:
                 state.close()
